@@ -486,7 +486,30 @@ def _variants():
         'add_unused_parameter': lambda m: P.add_population_parameter(m, 'FOOUNUSED', 1.5),
         'add_iiv_S1': lambda m: P.add_iiv(m, 'S1', 'exp'),
         'add_allometry': lambda m: P.add_allometry(m, allometric_variable='WGT'),
+        # joint distributions with positive variances in which every covariance is fixed to exactly 0
+        # joint distributions with positive variances in which every covariance is fixed to exactly 0 (a block
+        # of a NONMEM model can only be fixed as a whole: the variances are fixed to their values)
+        'fix_covariances_to_0': lambda m: P.fix_parameters_to(m, _blocks_with_zero_covariances(m)),
+        'joint_fix_covariances_to_0': lambda m: (lambda j: P.fix_parameters_to(
+            j, _blocks_with_zero_covariances(j)))(P.create_joint_distribution(m, individual_estimates=None)),
+        'add_iiv_S1_0_fix_joint_fix_covariances_to_0': lambda m: (lambda j: P.fix_parameters_to(
+            j, _blocks_with_zero_covariances(j)))(P.fix_parameters_to(P.add_iiv(P.create_joint_distribution(
+                m, individual_estimates=None), 'S1', 'exp'), {'IIV_S1': 0})),
     }
+
+
+def _blocks_with_zero_covariances(model):
+    """parameter name -> value for the joint distributions of the IIV etas: variances as they are,
+    covariances 0"""
+    out = {}
+    for d in model.random_variables.iiv:
+        n = len(d.names)
+        if n > 1:
+            for i in range(n):
+                for j in range(i + 1):
+                    name = _sp(d.variance[i, j]).name
+                    out[name] = float(model.parameters[name].init) if i == j else 0
+    return out
 
 
 _BASE_VARIANTS_QUICK = [
@@ -504,12 +527,32 @@ _BASE_VARIANTS_QUICK = [
 ]
 
 
+# models with joint distributions in which a covariance is fixed to exactly 0 (variances positive); appended
+# after the cases of _BASE_VARIANTS_QUICK, with the refactorings that look at the random variables
+_BASE_VARIANTS_OMEGA = [
+    ('pheno', ['joint_fix_covariances_to_0', 'add_iiv_S1_0_fix_joint_fix_covariances_to_0']),
+    ('moxo', ['fix_covariances_to_0']),
+]
+_OMEGA_REFACTORINGS = {
+    'quick': ('replace_non_random_rvs', 'cleanup_model', 'remove_unused_parameters_and_rvs',
+              'split_joint_distribution', 'mu_reference_model'),
+    'thorough': ('replace_non_random_rvs', 'cleanup_model', 'remove_unused_parameters_and_rvs',
+                 'split_joint_distribution', 'mu_reference_model', 'make_declarative', 'greekify_model',
+                 'create_joint_distribution', 'simplify_expression', 'convert_model_generic'),
+}
+# synthetic $PRED models with inter-occasion variability for the extractors and evaluators: (covariates, etas
+# on the IIV level, occasions)
+_SYNTH_IOV_BOUNDS = {'quick': ((0, 2), (1, 2, 3), (2, 3)), 'thorough': ((0, 2, 5), (1, 2, 3, 4), (2, 3, 4))}
+
+
 def variant_model(base, variant):
     key = (base, variant)
     if key not in _MODEL_CACHE:
         if base == 'synth_pred':
-            ncov, neta = (int(x[3:]) for x in variant.split('_'))     # 'cov10_eta2'
-            _MODEL_CACHE[key] = synth_pred_model(ncov, neta)
+            nums = [int(x[3:]) for x in variant.split('_')]           # 'cov10_eta2', 'cov2_eta2_occ3'
+            _MODEL_CACHE[key] = synth_pred_model(*nums)
+        elif base == 'synth_omega':
+            _MODEL_CACHE[key] = synth_omega_model(variant)             # 'd-b2f0'
         elif variant.startswith('reassign:'):
             _, sym, form = variant.split(':')                          # 'reassign:TVCL:pw0'
             _MODEL_CACHE[key] = reassign_variant(base_model(base), sym, form)
@@ -595,12 +638,18 @@ def reassign_variant(model, sym, form):
 
 # -- synthetic $PRED models with many covariates and etas ---------------------------------------------
 
-def synth_pred_model(ncov, neta):
+def synth_pred_model(ncov, neta, nocc=0):
     """$PRED model with `ncov` covariates CV1.. (every one with its own coefficient and its own values in
     the dataset) and `neta` etas (every one entering in its own way), two epsilons; dataset of 3
-    individuals x 2 records built here.  The individual prediction has ncov + 1 + neta free symbols."""
+    individuals x 2 records built here.  The individual prediction has ncov + 1 + neta free symbols.
+
+    nocc > 0: additionally inter-occasion variability on P1 and P2: an occasion column OCC with the values
+    1..nocc (max(2, nocc) records per individual), for each of the two parameters one eta per occasion on the
+    IOV level ($OMEGA BLOCK(1) followed by BLOCK(1) SAME), selected by IF (OCC.EQ.j) statements"""
     import pandas as pd
 
+    if nocc:
+        return _synth_pred_iov_model(ncov, neta, nocc)
     covs = [f'CV{i + 1}' for i in range(ncov)]
     odd = ' + '.join(f'{0.01 * (i + 1):.3f}*{c}' for i, c in enumerate(covs) if i % 2 == 0)
     even = ' + '.join(f'{0.02 * (i + 1):.3f}*{c}' for i, c in enumerate(covs) if i % 2 == 1)
@@ -639,6 +688,151 @@ def synth_pred_model(ncov, neta):
                 row[c] = 1.0 + ((7 * j + 3 * i) % 11) + 0.25 * j + (0.5 * r if j % 2 else 0.0)
             rows.append(row)
     df = pd.DataFrame(rows, columns=['ID', 'TIME', 'DV'] + covs).astype('float64')
+    df['ID'] = df['ID'].astype('int64')
+    return m.replace(dataset=df)
+
+
+def _synth_pred_iov_model(ncov, neta, nocc):
+    """synth_pred_model with inter-occasion variability (see there)"""
+    import pandas as pd
+
+    covs = [f'CV{i + 1}' for i in range(ncov)]
+    odd = ' + '.join(f'{0.01 * (i + 1):.3f}*{c}' for i, c in enumerate(covs) if i % 2 == 0)
+    even = ' + '.join(f'{0.02 * (i + 1):.3f}*{c}' for i, c in enumerate(covs) if i % 2 == 1)
+    nth = max(neta, 3)
+    lines = [f'COVA = 1 + {odd}' if odd else 'COVA = 1',
+             f'COVB = {even}' if even else 'COVB = 0',
+             'IOVA = 0', 'IOVB = 0']
+    for j in range(nocc):
+        lines.append(f'IF (OCC.EQ.{j + 1}) IOVA = ETA({neta + 1 + j})')
+    for j in range(nocc):
+        lines.append(f'IF (OCC.EQ.{j + 1}) IOVB = ETA({neta + nocc + 1 + j})')
+    lines += ['TVP1 = THETA(1)*COVA',
+              'TVP2 = THETA(2)*EXP(-COVB/10)',
+              'P1 = TVP1*EXP(ETA(1) + IOVA)',
+              'P2 = TVP2 + ETA(2) + IOVB' if neta >= 2 else 'P2 = TVP2 + IOVB']
+    terms = ['P1*EXP(-P2*TIME/10)']
+    for k in range(3, nth + 1):
+        if k > neta:
+            lines.append(f'P{k} = THETA({k})')
+        elif k % 2:
+            lines.append(f'P{k} = THETA({k})*EXP(ETA({k}))')
+        else:
+            lines.append(f'P{k} = THETA({k})*(1 + ETA({k})) + 0.3*ETA({k})**2')
+        terms.append(f'P{k}*TIME/(TIME + {k})')
+    lines.append('IPR = ' + ' + '.join(terms))
+    lines.append('Y = IPR + IPR*EPS(1) + EPS(2)')
+    code = '$PROBLEM synthetic covariate model with occasions\n$DATA synth.csv IGNORE=@\n'
+    code += '$INPUT ID TIME DV OCC ' + ' '.join(covs) + '\n$PRED\n' + '\n'.join(lines) + '\n'
+    inits = [2.5, 1.5, 0.8, 1.2, 0.6, 0.9, 1.1, 0.7]
+    for k in range(nth):
+        code += f'$THETA  (0,{inits[k % len(inits)]})\n'
+    for k in range(neta):
+        code += f'$OMEGA  {0.1 + 0.05 * k:.2f}\n'
+    for init in (0.05, 0.03):
+        code += f'$OMEGA  BLOCK(1) {init}\n' + '$OMEGA  BLOCK(1) SAME\n' * (nocc - 1)
+    code += '$SIGMA  0.05\n$SIGMA  0.2\n$ESTIMATION METHOD=1 INTERACTION\n'
+    m = pm().read_model_from_string(code)
+    rows = []
+    nrec = max(2, nocc)
+    for i in range(1, 4):
+        for r in range(nrec):
+            row = {'ID': i, 'TIME': [0.5, 2.0, 4.5, 7.0][r % 4] + 0.25 * i, 'DV': 1.0 + 0.1 * r + 0.01 * i,
+                   'OCC': r % nocc + 1}
+            for j, c in enumerate(covs):
+                row[c] = 1.0 + ((7 * j + 3 * i) % 11) + 0.25 * j + (0.5 * r if j % 2 else 0.0)
+            rows.append(row)
+    df = pd.DataFrame(rows, columns=['ID', 'TIME', 'DV', 'OCC'] + covs).astype('float64')
+    df['ID'] = df['ID'].astype('int64')
+    return m.replace(dataset=df)
+
+
+# -- synthetic $PRED models over the structures of the OMEGA matrix --------------------------------------
+#
+# Three etas (each entering the model in its own way); the OMEGA records are described by a string of
+# blocks in order, separated by '-':
+#   d        diagonal element, estimated          df   diagonal element, FIX (positive)
+#   dz       diagonal element 0 FIX (an eta without variability)
+#   b<n>     BLOCK(n), estimated, all covariances non-zero
+#   b<n>f<bits>  BLOCK(n) FIX with positive variances; one bit per covariance (2,1),(3,1),(3,2): 1 = non-zero,
+#                0 = exactly 0 (band / partially structured fixed blocks)
+#   b<n>z    BLOCK(n) FIX with all elements 0 (etas without variability)
+# The variances are 0.1, 0.2, 0.3 and the non-zero covariances 0.01, 0.015, 0.02: positive definite for every
+# pattern of zeros.
+
+_OMEGA_VAR = (0.1, 0.2, 0.3)
+_OMEGA_COV = {(1, 0): 0.01, (2, 0): 0.015, (2, 1): 0.02}
+
+
+def _omega_block_options(n):
+    if n == 1:
+        return ['d', 'df', 'dz']
+    ncov = n * (n - 1) // 2
+    pats = [''.join(b) for b in itertools.product('10', repeat=ncov)]
+    return [f'b{n}'] + [f'b{n}f{p}' for p in pats] + [f'b{n}z']
+
+
+def omega_specs(neta=3):
+    """every OMEGA structure on `neta` etas: all compositions into consecutive blocks x all block options"""
+    out = []
+
+    def rec(left, acc):
+        if left == 0:
+            out.append('-'.join(acc))
+            return
+        for n in range(1, left + 1):
+            for o in _omega_block_options(n):
+                rec(left - n, acc + [o])
+    rec(neta, [])
+    out.sort(key=lambda s: (s.count('-') * -1, s))    # diagonal structures first
+    return out
+
+
+def synth_omega_model(spec):
+    import pandas as pd
+
+    code = ('$PROBLEM synthetic OMEGA structures\n$DATA synth.csv IGNORE=@\n$INPUT ID TIME DV WGT\n$PRED\n'
+            'TVP1 = THETA(1)*(WGT/70)**0.75\n'
+            'P1 = TVP1*EXP(ETA(1))\n'
+            'P2 = THETA(2) + ETA(2)\n'
+            'P3 = THETA(3)*(1 + ETA(3)) + 0.3*ETA(3)**2\n'
+            'IPR = P1*EXP(-P2*TIME/10) + P3*TIME/(TIME + 3)\n'
+            'Y = IPR + IPR*EPS(1) + EPS(2)\n'
+            '$THETA  (0,2.5)\n$THETA  (0,1.5)\n$THETA  (0,0.8)\n')
+    pos = 0
+    for blk in spec.split('-'):
+        if blk[0] == 'd':
+            v = _OMEGA_VAR[pos]
+            code += {'d': f'$OMEGA  {v}\n', 'df': f'$OMEGA  {v} FIX\n', 'dz': '$OMEGA  0 FIX\n'}[blk]
+            pos += 1
+            continue
+        n = int(blk[1])
+        mode = blk[2:3]
+        bits = blk[3:]
+        pairs = [(i, j) for i in range(n) for j in range(i)]
+        vals = []
+        for i in range(n):
+            for j in range(i + 1):
+                if mode == 'z':
+                    vals.append('0')
+                elif i == j:
+                    vals.append(str(_OMEGA_VAR[pos + i]))
+                elif mode == 'f' and bits[pairs.index((i, j))] == '0':
+                    vals.append('0')
+                else:
+                    vals.append(str(_OMEGA_COV[(i, j)]))
+        code += f'$OMEGA  BLOCK({n})' + (' FIX' if mode in ('f', 'z') else '') + '\n ' + ' '.join(vals) + '\n'
+        pos += n
+    if pos != 3:
+        raise ValueError(spec)
+    code += '$SIGMA  0.05\n$SIGMA  0.2\n$ESTIMATION METHOD=1 INTERACTION\n'
+    m = pm().read_model_from_string(code)
+    rows = []
+    for i in range(1, 4):
+        for r in range(2):
+            rows.append({'ID': i, 'TIME': [0.5, 2.0][r] + 0.25 * i, 'DV': 1.0 + 0.1 * r + 0.01 * i,
+                         'WGT': 55.0 + 12.5 * i})
+    df = pd.DataFrame(rows, columns=['ID', 'TIME', 'DV', 'WGT']).astype('float64')
     df['ID'] = df['ID'].astype('int64')
     return m.replace(dataset=df)
 
@@ -738,6 +932,7 @@ def _refactorings():
         'mu_reference_model': plain(P.mu_reference_model),
         'make_declarative': plain(P.make_declarative),
         'cleanup_model': plain(P.cleanup_model),
+        'replace_non_random_rvs': plain(P.replace_non_random_rvs),
         'greekify_model': greek(False),
         'greekify_model_named': greek(True),
         'rename_symbols': (P.rename_symbols, rename),
@@ -837,6 +1032,21 @@ def refactoring_cases(tier):
                           'arg': None})
     for base in ('pheno_linear', 'pheno', 'moxo'):
         cases.append({'model': base, 'variant': 'none', 'refactoring': 'evaluators', 'arg': None})
+    # extractors and evaluators on $PRED models with etas on the IOV level (BLOCK SAME, selected by OCC)
+    ncovs, netas, noccs = _SYNTH_IOV_BOUNDS[tier]
+    for ncov in ncovs:
+        for neta in netas:
+            for nocc in noccs:
+                cases.append({'model': 'synth_pred', 'variant': f'cov{ncov}_eta{neta}_occ{nocc}',
+                              'refactoring': 'evaluators', 'arg': None})
+    # refactorings that look at the random variables, over the structures of the OMEGA matrix
+    for spec in omega_specs():
+        for r in _OMEGA_REFACTORINGS[tier]:
+            cases.append({'model': 'synth_omega', 'variant': spec, 'refactoring': r, 'arg': None})
+    for base, variants in _BASE_VARIANTS_OMEGA:
+        for variant in variants:
+            for r in _OMEGA_REFACTORINGS[tier]:
+                cases.append({'model': base, 'variant': variant, 'refactoring': r, 'arg': None})
     return cases
 
 
@@ -934,11 +1144,19 @@ def _compare_models(m0, m1, ref, pts, ren, cmap, dvs, ips, solve, ip_must_stay=T
             am_ren[st0[0][a][0]] = st1[0][b][0]
     full_ren = dict(ren)
     full_ren.update(am_ren)
+    # a random variable that only the result has and whose variance is fixed to 0 takes its mean 0
+    zero1 = zero_variance_rvs(m1) - set(m0.random_variables.names)
+    # a fixed parameter that only the result has: its value is its (fixed) initial estimate
+    fixed1 = {p.name: float(p.init) for p in m1.parameters if p.fix and p.name not in m0.parameters.names}
     for k, pt in enumerate(pts):
         d0, sig0, env0 = ref[k]
         if any(_isbad(d0.get(y, float('nan'))) for y in dvs):
             continue
         pt1 = rename_point(pt, full_ren)
+        for n in zero1:
+            pt1.setdefault(n, 0.0)
+        for n, v in fixed1.items():
+            pt1.setdefault(n, v)
         try:
             d1, sig1, env1 = eval_model(m1, pt1, 'input')
         except Undefined as e:
@@ -1140,18 +1358,36 @@ def run_evaluator_case(case, tier='quick'):
         he = call(P.calculate_epsilon_gradient_expression, m)
         for r in rows:
             p0, p1 = point(pvals, r, 'zero'), point(pvals, r, 'ind')
+            # the same record with non-zero values for the random variables the prediction does not depend on
+            p1e = point(pvals, r, 'ind', {e: 0.37 - 0.11 * j for j, e in enumerate(eps_names)})
             if pe is not None:
                 v = numexpr(P.get_population_prediction_expression, pe, p0)
                 if v is not None and not close(ref_pred[r], v, rtol=1e-9):
                     fail(P.get_population_prediction_expression, 'population prediction expression equals direct '
                          'evaluation of the model with etas and epsilons 0',
                          f'record {pos[r]} ({pname}): direct {ref_pred[r]!r}, expression {v!r}')
+                v = numexpr(P.get_population_prediction_expression, pe, p1e)
+                if v is not None and not close(ref_pred[r], v, rtol=1e-9):
+                    fail(P.get_population_prediction_expression, 'population prediction expression does not depend '
+                         'on etas (of any variability level) and epsilons: for every value of them it equals direct '
+                         'evaluation of the model with etas and epsilons 0',
+                         f'record {pos[r]} ({pname}): direct evaluation with etas and epsilons 0 {ref_pred[r]!r}, '
+                         f'expression {v!r} at etas { {e: p1e[e] for e in eta_names} }, epsilons '
+                         f'{ {e: p1e[e] for e in eps_names} }; random variables in the expression: '
+                         f'{sorted(x.name for x in _sp(pe).free_symbols if x.name in eta_names + eps_names)}')
             if ie is not None:
                 v = numexpr(P.get_individual_prediction_expression, ie, p1)
                 if v is not None and not close(ref_ipred[r], v, rtol=1e-9):
                     fail(P.get_individual_prediction_expression, 'individual prediction expression equals direct '
                          'evaluation of the model with epsilons 0',
                          f'record {pos[r]} ({pname}): direct {ref_ipred[r]!r}, expression {v!r}')
+                v = numexpr(P.get_individual_prediction_expression, ie, p1e)
+                if v is not None and not close(ref_ipred[r], v, rtol=1e-9):
+                    fail(P.get_individual_prediction_expression, 'individual prediction expression does not depend '
+                         'on epsilons: for every value of them it equals direct evaluation of the model with '
+                         'epsilons 0',
+                         f'record {pos[r]} ({pname}): direct evaluation with epsilons 0 {ref_ipred[r]!r}, '
+                         f'expression {v!r} at epsilons { {e: p1e[e] for e in eps_names} }')
             if ge is not None:
                 if len(ge) != len(eta_names):
                     fail(P.calculate_eta_gradient_expression, 'one gradient expression per eta', f'{len(ge)}')
@@ -1388,12 +1624,23 @@ def run_refactoring_case(case, tier='quick'):
         left = [p.name for p in pm().get_thetas(m1) if p.fix]
         if left:
             fail('no fixed theta is left as a parameter', f'{left}')
+    if r == 'replace_non_random_rvs':
+        # documented: random variables that are constant (variance fixed to 0) are replaced by their constant
+        # value; the others stay what they are
+        z0 = zero_variance_rvs(m0)
+        left = [n for n in m1.random_variables.names if n in z0]
+        if left:
+            fail('random variables whose variance is fixed to 0 are removed', f'{left} still present')
+        lost = [n for n in m0.random_variables.names if n not in z0 and n not in m1.random_variables.names]
+        if lost:
+            fail('random variables with a non-zero variance are kept', f'{lost} removed; distributions before: '
+                 f'{[(d.names, [(p, float(m0.parameters[p].init), m0.parameters[p].fix) for p in d.parameter_names]) for d in m0.random_variables if set(d.names) & set(lost)]}')
     if r == 'split_joint_distribution':
         sel = case['arg']
         for dist in m1.random_variables.iiv:
             if len(dist.names) > 1 and (sel is None or set(sel) & set(dist.names)):
-                if sel is None and set(dist.names) & zero_variance_rvs(m0):
-                    continue
+                if sel is None and set(dist.names) & (zero_variance_rvs(m0) | _fixed_variance_rvs(m0)):
+                    continue    # documented: "If None, all etas that are IIVs and non-fixed will become single"
                 fail('requested etas are no longer part of a joint distribution', f'{dist.names} still joint')
     if r == 'create_joint_distribution':
         sel = case['arg'] if case['arg'] is not None else nonfixed
